@@ -155,6 +155,23 @@ class Roles:
             out.append({"var": var, "start": start, "test": test_p, "stride": stride, "stmt": st})
         return out
 
+    def counting_loops(self) -> List[dict]:
+        """while-loops over a counter and `for v in range(start, stop, step)` loops, in one format (start, test v < stop, stride)"""
+        out = self.while_loops()
+        for st in self.stmts:
+            if isinstance(st, ast.For) and isinstance(st.target, ast.Name) and isinstance(st.iter, ast.Call) and dotted(st.iter.func) == "range" and \
+                    1 <= len(st.iter.args) <= 3 and not st.iter.keywords:
+                a = st.iter.args
+                start = self.at(st, a[0]) if len(a) >= 2 else Poly.const(0)
+                stop = a[1] if len(a) >= 2 else a[0]
+                stride = self.at(st, a[2]) if len(a) == 3 else Poly.const(1)
+                test = ast.Compare(left=ast.Name(id=st.target.id, ctx=ast.Load()), ops=[ast.Lt()], comparators=[stop])
+                ast.fix_missing_locations(test)
+                env = self.snaps[id(st)].copy()
+                env.values.pop(st.target.id, None)
+                out.append({"var": st.target.id, "start": start, "test": _sym(test, env), "stride": stride, "stmt": st})
+        return out
+
     def for_loops(self) -> List[dict]:
         out = []
         for st in self.stmts:
